@@ -19,6 +19,7 @@
 package resolver
 
 import (
+	"encoding/json"
 	"errors"
 	"github.com/lestrrat-go/jwx/v2/cert"
 	"github.com/nuts-foundation/go-did/did"
@@ -36,6 +37,27 @@ type DIDResolver interface {
 	// It returns ErrDeactivated if the DID Document has been deactivated and metadata is unset or metadata.AllowDeactivated is false.
 	// It returns ErrNoActiveController if all of the DID Documents controllers have been deactivated and metadata is unset or metadata.AllowDeactivated is false.
 	Resolve(id did.DID, metadata *ResolveMetadata) (*did.Document, *DocumentMetadata, error)
+}
+
+// UnmarshalDocument unmarshals a DID document that was received from a peer or a remote server.
+// go-did dereferences null entries of verificationMethod when it resolves verification relationships that are given
+// by reference, so a document with such an entry is refused before it is handed to go-did.
+func UnmarshalDocument(data []byte, document *did.Document) error {
+	var raw struct {
+		VerificationMethod json.RawMessage `json:"verificationMethod"`
+	}
+	if err := json.Unmarshal(data, &raw); err != nil {
+		return err
+	}
+	var methods []json.RawMessage
+	if json.Unmarshal(raw.VerificationMethod, &methods) == nil {
+		for _, method := range methods {
+			if string(method) == "null" {
+				return errors.New("invalid verificationMethod: null entry")
+			}
+		}
+	}
+	return json.Unmarshal(data, document)
 }
 
 var _ DIDResolver = &ChainedDIDResolver{}
